@@ -99,14 +99,14 @@ Definition check_bkt (g : bool) (cs : list bkt_case) : list nat := bad_from (bkt
 
 (* ---------- linked log ---------- *)
 Inductive ll_case := CLl (file : list N) (offset size cls : N).
-Definition ll_case_ok (g : bool) (c : ll_case) : bool :=
+Definition ll_case_ok (g gb : bool) (c : ll_case) : bool :=
   match c with
   | CLl f off size cls =>
       (* the zstd payload is abstract: the class must be one the model allows for SOME decoder answer *)
-      N.eqb (class_of (fst (ll_read g f off size (fun _ => true)))) cls ||
-      N.eqb (class_of (fst (ll_read g f off size (fun _ => false)))) cls
+      N.eqb (class_of (fst (ll_read g gb f off size (fun _ => true)))) cls ||
+      N.eqb (class_of (fst (ll_read g gb f off size (fun _ => false)))) cls
   end.
-Definition check_ll (g : bool) (cs : list ll_case) : list nat := bad_from (ll_case_ok g) 0 cs.
+Definition check_ll (g gb : bool) (cs : list ll_case) : list nat := bad_from (ll_case_ok g gb) 0 cs.
 
 (* ---------- kind dispatch ---------- *)
 Inductive kind_case := CKind (data : list N) (cls : N) (kind : N).
